@@ -1,16 +1,182 @@
+import ActixNet.Model.Srv
+import ActixNet.Model.Avail
 import Driver.Util
-/-! Engine `srv`: line protocol (stub — filled in by the owner of this engine). -/
+/-! Engine `srv`: line protocol for the accept-thread model (`ActixNet.Srv`) and the server kernels. -/
 namespace Driver.Srv
-open Driver
+open ActixNet ActixNet.Srv Driver
 
 structure State where
-  dummy : Nat := 0
+  cfg : Cfg := { limit := 1, nIdx := 1 }
+  s : St := ActixNet.Srv.init { limit := 1, nIdx := 1 } []
+  started : Bool := false
 
 def init : State := {}
 
+def parseKind (k : String) : Option Src.ErrorKind :=
+  match k with
+  | "NotFound" => some .NotFound | "PermissionDenied" => some .PermissionDenied
+  | "ConnectionRefused" => some .ConnectionRefused | "ConnectionReset" => some .ConnectionReset
+  | "ConnectionAborted" => some .ConnectionAborted | "NotConnected" => some .NotConnected
+  | "AddrInUse" => some .AddrInUse | "AddrNotAvailable" => some .AddrNotAvailable
+  | "BrokenPipe" => some .BrokenPipe | "AlreadyExists" => some .AlreadyExists
+  | "WouldBlock" => some .WouldBlock | "InvalidInput" => some .InvalidInput
+  | "InvalidData" => some .InvalidData | "TimedOut" => some .TimedOut | "WriteZero" => some .WriteZero
+  | "Interrupted" => some .Interrupted | "Unsupported" => some .Unsupported
+  | "UnexpectedEof" => some .UnexpectedEof | "OutOfMemory" => some .OutOfMemory | "Other" => some .Other
+  | _ => none
+
+def parseAct (a : String) : Option EnvAct :=
+  match a.splitOn ":" with
+  | ["connect", l] => l.toNat?.map .connect
+  | ["recv", w] => w.toNat?.map .recv
+  | ["finish", w, c] => match w.toNat?, c.toNat? with
+    | some w, some c => some (.finishNow w (some c))
+    | some w, none => if c == "*" then some (.finishNow w none) else none
+    | _, _ => none
+  | ["die", w] => w.toNat?.map .die
+  | ["pause"] => some (.cmd .pause)
+  | ["resume"] => some (.cmd .resume)
+  | ["stop"] => some (.cmd .stop)
+  | ["restart", i] => i.toNat?.map .restart
+  | ["advance", ms] => ms.toNat?.map .advance
+  | ["inject", l, "EMFILE"] => l.toNat?.map (fun l => .inject l .emfile)
+  | ["inject", l, k] => match l.toNat?, parseKind k with
+    | some l, some k => some (.inject l (.kind k)) | _, _ => none
+  | _ => none
+
+def parseActs (s : String) : Option (List EnvAct) :=
+  if s.isEmpty then some [] else (s.splitOn ",").mapM parseAct
+
+def parseEv (t : String) : Option Ev :=
+  if t == "W" then some .waker else t.toNat?.map .listener
+
+def parseOrder (s : String) : Option (List Ev) :=
+  if s.isEmpty then some [] else (s.splitOn ",").mapM parseEv
+
+def kv (ws : List String) (key : String) : Option String :=
+  ws.findSome? fun w => if w.startsWith (key ++ "=") then some ((w.drop (key.length + 1)).toString) else none
+
+def showAct : ActRes → String
+  | .ok => "ok" | .bad => "bad" | .conn c => s!"c{c.1}@{c.2}" | .refused => "refused" | .none => "none"
+  | .dec b => if b then "dec1" else "dec0" | .wid w => s!"w{w}"
+
+def showFault : Option Fault → String
+  | none => "-"
+  | some .panicIndex => "panic-index" | some .panicRem => "panic-rem" | some .panicOffset => "panic-offset"
+  | some .spinAcceptOne => "spin-accept-one" | some .spinWaker => "spin-waker" | some .spinAccept => "spin-accept"
+
+def showOpt : Option Nat → String | none => "-" | some n => toString n
+
+def bitStr (b : Bool) : String := if b then "1" else "0"
+
+def snapshot (st : State) (old : St) : String :=
+  let s := st.s
+  let acts := (s.acts.drop old.acts.length).map showAct
+  let disp := (s.dispatched.drop old.dispatched.length).map fun (_, w) => s!">{(s.wk w).idx}"
+  let h := s.handles.map fun w => toString (s.wk w).idx
+  let av := String.join ((List.range st.cfg.nIdx).map fun i => bitStr (s.avail i))
+  let ctr := (List.range s.nWk).map fun w => toString (s.wk w).c
+  let dl := (List.range s.nLst).map fun l => showOpt (((s.lst l).deadline).map (· - s.now))
+  s!"acts=[{",".intercalate acts}] disp=[{",".intercalate disp}] next={s.next} h=[{",".intercalate h}] av={av} " ++
+  s!"ctr=[{",".intercalate ctr}] wq={s.wq.length} paused={bitStr s.paused} to={showOpt s.timeout} dl=[{",".intercalate dl}] " ++
+  s!"faulted=[{",".intercalate (s.faultedLog.map toString)}] exit={bitStr s.exited} fault={showFault s.fault}"
+
+def evCheck (s : St) (order : List Ev) (exits : Bool) : String :=
+  let got := (order.filterMap fun e => match e with | .listener l => some l | .waker => none)
+  let want := readyListeners s
+  let sorted := got.mergeSort
+  -- an iteration that processes `Stop` returns at once: the rest of the batch is never looked at
+  if exits then (if sorted.all want.contains && order.contains .waker then "ok" else s!"MISMATCH(model-predicts-subset-of=[{",".intercalate (want.map toString)}])")
+  else if sorted == want && order.contains .waker then "ok"
+  else s!"MISMATCH(model-predicts=[{",".intercalate (want.map toString)}])"
+
+def hexU128 (s : String) : Option (BitVec 128) :=
+  let rec go : List Char → Nat → Option Nat
+    | [], acc => some acc
+    | c :: t, acc => match hexDigit c with
+      | some d => go t (16 * acc + d)
+      | none => none
+  (go s.toList 0).map (BitVec.ofNat 128)
+
+def toHexU128 (w : BitVec 128) : String :=
+  let n := w.toNat
+  let rec go (fuel : Nat) (n : Nat) (acc : List Char) : List Char :=
+    match fuel with
+    | 0 => acc
+    | f + 1 => if n = 0 then acc else go f (n / 16) (hexChar (n % 16) :: acc)
+  let cs := go 40 n []
+  if cs.isEmpty then "0" else String.ofList cs
+
 def step (st : State) (line : String) : State × String :=
-  match words line with
-  | "case" :: _ => (init, "ok")
-  | _ => (st, "bad-op")
+  let ws := words line
+  match ws with
+  | "case" :: _ =>
+    let workers := ((kv ws "workers").bind (·.toNat?)).getD 1
+    let limit := ((kv ws "limit").bind (·.toNat?)).getD 1
+    let kinds := ((kv ws "listeners").getD "tcp").splitOn "," |>.map fun k => if k == "uds" then Kind.uds else Kind.tcp
+    let cfg : Cfg := { limit := limit, nIdx := workers }
+    ({ cfg := cfg, s := ActixNet.Srv.init cfg kinds, started := true }, "ok")
+  | ["k-new", l] => match l.toNat? with
+    | some _ => (st, toString Src.wcInit) | none => (st, "bad-op")
+  | ["k-inc", v, l] => match v.toNat?, l.toNat? with
+    | some v, some l => (st, s!"{bitStr (Src.wcIncStill v l)} {v + 1}")
+    | _, _ => (st, "bad-op")
+  | ["k-dec", v, l] => match v.toNat?, l.toNat? with
+    | some v, some l => (st, s!"{bitStr (Src.wcDecCrossed v l)} {v - 1}")
+    | _, _ => (st, "bad-op")
+  | ["k-total", v] => match v.toNat? with
+    | some v => (st, toString (Src.wcTotal v)) | none => (st, "bad-op")
+  | ["k-offset", i] => match i.toNat? with
+    | some i => match Src.availOffset i with
+      | some (o, j) => (st, s!"{o} {j}")
+      | none => (st, "panic")
+    | none => (st, "bad-op")
+  | ["k-bits", a, b, c, d, "get", i] => match hexU128 a, hexU128 b, hexU128 c, hexU128 d, i.toNat? with
+    | some a, some b, some c, some d, some i =>
+      let av : Avail.Avail := { w0 := a, w1 := b, w2 := c, w3 := d }
+      match Avail.get av i with
+      | some r => (st, s!"{bitStr r} any={bitStr (Avail.available av)}")
+      | none => (st, "panic")
+    | _, _, _, _, _ => (st, "bad-op")
+  | ["k-bits", a, b, c, d, "set", i, v] => match hexU128 a, hexU128 b, hexU128 c, hexU128 d, i.toNat? with
+    | some a, some b, some c, some d, some i =>
+      let av : Avail.Avail := { w0 := a, w1 := b, w2 := c, w3 := d }
+      match Avail.set av i (v == "1") with
+      | some r => (st, s!"{toHexU128 r.w0} {toHexU128 r.w1} {toHexU128 r.w2} {toHexU128 r.w3} any={bitStr (Avail.available r)}")
+      | none => (st, "panic")
+    | _, _, _, _, _ => (st, "bad-op")
+  | ["k-connerr", k] => match parseKind k with
+    | some k => (st, bitStr (Src.connectionError k)) | none => (st, "bad-op")
+  | ["k-times"] => (st, s!"backoff={Src.backoffMs} polltimeout={Src.pollTimeoutMs}")
+  | _ =>
+    if !st.started then (st, "bad-op") else
+    match ws with
+    | ["connect", l] => match l.toNat? with
+      | some l =>
+        let s' := runEnv st.cfg st.s [.connect l]
+        let st' := { st with s := s' }
+        (st', snapshot st' st.s)
+      | none => (st, "bad-op")
+    | ["env", acts] => match parseActs acts with
+      | some as =>
+        let st' := { st with s := runEnv st.cfg st.s as }
+        (st', snapshot st' st.s)
+      | none => (st, "bad-op")
+    | "poll" :: rest =>
+      match parseOrder ((kv rest "order").getD ""), (((kv rest "y").getD "").splitOn ";").mapM parseActs with
+      | some order, some sched =>
+        let sched := if (kv rest "y").isNone then [] else sched
+        if st.s.exited then (st, "ev=ok yields=0 " ++ snapshot st st.s) else
+        let st' := { st with s := ActixNet.Srv.poll st.cfg st.s order sched }
+        let ev := evCheck st.s order st'.s.exited
+        (st', s!"ev={ev} yields={st'.s.yields} " ++ snapshot st' st.s)
+      | _, _ => (st, "bad-op")
+    | "finishw2" :: w :: c :: rest =>
+      match w.toNat?, (if c == "*" then some none else c.toNat?.map some), parseOrder ((kv rest "order").getD "") with
+      | some w, some c, some order =>
+        let st' := { st with s := ActixNet.Srv.step st.cfg st.s (.finishW2 w c order) }
+        (st', snapshot st' st.s)
+      | _, _, _ => (st, "bad-op")
+    | _ => (st, "bad-op")
 
 end Driver.Srv
